@@ -493,3 +493,4 @@ MANIFEST = {
     "technique": "algebraic normal-form obligations (rational functions) + structural role checks on the AST",
 }
 MANIFEST["text"] += ' The block sum is recognised in function and method form and must not narrow the accumulator dtype.'
+MANIFEST["text"] += " For Dataset.crop a definite verdict is given when the slice stop is the caller's crop width reached through structure-preserving steps only (names, unpacking, dict(zip(…)), subscripts, starring): then a width of 0 provably reaches slice() as 0."
